@@ -8,7 +8,7 @@
 //	                         the (real or mirrored) context check rejects against the state before the block
 //	                         is dropped, exactly as the node would never have it in a block
 //	     tx: regcr:<i> updcr:<i>:<n> unregcr:<i> votecr:<v>:<i>=<a>,<j>=<b>… unvote:<v>
-//	         retdep:<i> fund:<e|a>:<amount>
+//	         retdep:<i> fund:<e|a>:<amount> dvote:<k>:<crc|prop|imp>:<x>=<a>,…
 //	         prop:<id>:<member> review:<id>:<member>:<a|r> rejvote:<v>:<id>:<amount>
 //	         track:<id>:<p|r|t|f>:<stage> withdraw:<id> impeach:<v>:<member>:<amount>
 //	rb <k>                   Checkpoint.OnRollbackTo(k) (the entry the node uses; = Committee.RollbackTo(k) for k >= CRVotingStartHeight), compared leaf by leaf (KeyFrame, StateKeyFrame,
@@ -29,6 +29,7 @@ import (
 	"sort"
 	"strconv"
 	"strings"
+	"time"
 
 	"elaverif/harness/hx"
 
@@ -374,6 +375,66 @@ func (w *world) build(d string, used map[string]bool) interfaces.Transaction {
 		tx := w.mk(ctypes.TransferAsset, 0, &payload.TransferAsset{}, []*ctypes.Output{voteOutput(outputpayload.CRCProposal, common.Fixed64(a), cvs)}, nil)
 		w.voteTxs[v] = tx
 		return tx
+	case "dvote": // dvote:<k>:<crc|prop|imp>:<x>=<a>,…   Voting tx (payload VoteVersion) from the stake address of key k
+		k := cands[ci(p[1])]
+		var vt outputpayload.VoteType
+		var vi []payload.VotesWithLockTime
+		for _, x := range strings.Split(p[3], ",") {
+			kv := strings.Split(x, "=")
+			a, _ := strconv.Atoi(kv[1])
+			var cand []byte
+			switch p[2] {
+			case "crc":
+				vt = outputpayload.CRC
+				c := cm.GetCandidate(cands[ci(kv[0])].cid())
+				if !cm.IsInVotingPeriod(h) || c == nil || c.State != crstate.Active || used["c"+kv[0]] {
+					continue
+				}
+				cand = cands[ci(kv[0])].cid().Bytes()
+			case "prop":
+				vt = outputpayload.CRCProposal
+				id, _ := strconv.Atoi(kv[0])
+				ph, ok := w.props[id]
+				if !ok {
+					continue
+				}
+				if ps := cm.GetProposal(ph); ps == nil || ps.Status != crstate.CRAgreed {
+					continue
+				}
+				cand = ph.Bytes()
+			case "imp":
+				vt = outputpayload.CRCImpeachment
+				if cm.GetMember(cands[ci(kv[0])].did()) == nil || !cm.IsInElectionPeriod() {
+					continue
+				}
+				cand = cands[ci(kv[0])].cid().Bytes()
+			default:
+				panic("harness: unknown vote type " + p[2])
+			}
+			vi = append(vi, payload.VotesWithLockTime{Candidate: cand, Votes: common.Fixed64(a), LockTime: 1000000})
+		}
+		if len(vi) == 0 || !mark("s"+p[1]+p[2]) {
+			return nil
+		}
+		// the votes this stake address cast before are cancelled first: they must still refer to live objects
+		// (State.processCancelVoteCRC dereferences the candidate without a nil check)
+		sct, _ := contract.CreateStakeContractByCode(k.code)
+		sa := *sct.ToProgramHash()
+		st := cm.GetState()
+		for _, v := range st.UsedCRVotes[sa] {
+			cid, err := common.Uint168FromBytes(v.Candidate)
+			if p[2] == "crc" && (err != nil || cm.GetCandidate(*cid) == nil) {
+				return nil
+			}
+		}
+		for _, v := range st.UsedCRImpeachmentVotes[sa] {
+			cid, err := common.Uint168FromBytes(v.Candidate)
+			if p[2] == "imp" && (err != nil || cm.GetMember(*cid) == nil && memberByCID(cm, *cid) == nil) {
+				return nil
+			}
+		}
+		return w.mk(ctypes.Voting, payload.VoteVersion, &payload.Voting{Contents: []payload.VotesContent{{VoteType: vt, VotesInfo: vi}}},
+			nil, []*program.Program{{Code: k.code}})
 	case "unvote":
 		v, _ := strconv.Atoi(p[1])
 		prev, ok := w.voteTxs[v]
@@ -492,6 +553,15 @@ func (w *world) noteCandidates() (fresh bool) {
 		}
 	}
 	return
+}
+
+func memberByCID(cm *crstate.Committee, cid common.Uint168) *crstate.CRMember {
+	for _, m := range cm.GetAllMembersCopy() {
+		if m.Info.CID.IsEqual(cid) {
+			return m
+		}
+	}
+	return nil
 }
 
 func (w *world) processBlock(b blockDesc) {
@@ -629,11 +699,40 @@ func leafName(path string) string {
 
 func diffLeaves(a, b map[string]string) (names []string, detail map[string][2]string) {
 	detail = map[string][2]string{}
+	leafs := map[string]bool{}
+	// map entries present on one side only: reported once as `M[+]` (only in the rolled-back state; `M[+0]` when
+	// the extra entry is all zero / an empty container) or `M[-]` (missing in it); `.len` leaves are implied
+	zeroEntry := func(m map[string]string, prefix string) bool {
+		numeric := false
+		for pth, v := range m {
+			if strings.HasPrefix(pth, prefix) && !strings.HasSuffix(pth, "#") {
+				if v == "0" {
+					numeric = true
+				} else if strings.HasSuffix(pth, ".len") || (v != "{}" && v != "false" && v != "nil") {
+					return false
+				}
+			}
+		}
+		return numeric
+	}
 	var missing []string
+	noteEntry := func(pth, tag, va, vb string) {
+		n := leafName(pth)
+		n = n[:len(n)-1] + tag + "]"
+		leafs[n] = true
+		if _, seen := detail[n]; !seen {
+			detail[n] = [2]string{va, vb}
+		}
+	}
 	for pth := range a {
 		if strings.HasSuffix(pth, "#") {
 			if _, ok := b[pth]; !ok {
 				missing = append(missing, pth[:len(pth)-1])
+				tag := "+"
+				if zeroEntry(a, pth[:len(pth)-1]) {
+					tag = "+0"
+				}
+				noteEntry(pth, tag, pth[:len(pth)-1]+" present", "absent")
 			}
 		}
 	}
@@ -641,18 +740,21 @@ func diffLeaves(a, b map[string]string) (names []string, detail map[string][2]st
 		if strings.HasSuffix(pth, "#") {
 			if _, ok := a[pth]; !ok {
 				missing = append(missing, pth[:len(pth)-1])
+				noteEntry(pth, "-", pth[:len(pth)-1]+" absent", "present")
 			}
 		}
 	}
 	under := func(pth string) bool {
+		if strings.HasSuffix(pth, ".len") || strings.HasSuffix(pth, "#") {
+			return true
+		}
 		for _, m := range missing {
-			if strings.HasPrefix(pth, m) && !strings.HasSuffix(pth, "#") {
+			if strings.HasPrefix(pth, m) {
 				return true
 			}
 		}
 		return false
 	}
-	leafs := map[string]bool{}
 	note := func(pth, va, vb string) {
 		n := leafName(pth)
 		leafs[n] = true
@@ -698,7 +800,33 @@ var lastVerdict string
 var lastDetail map[string][2]string
 var lastAccepted, lastOffered int
 
+// Committee.ProcessBlock holds its mutex without defer: a panic inside it would block every later call
 func exec(t []string) string {
+	done := make(chan string, 1)
+	var pan interface{}
+	go func() {
+		defer func() {
+			if r := recover(); r != nil {
+				pan = r
+				done <- "panic"
+			}
+		}()
+		done <- exec1(t)
+	}()
+	select {
+	case out := <-done:
+		if pan != nil {
+			panic(pan)
+		}
+		return out
+	case <-time.After(90 * time.Second):
+		fmt.Fprintln(os.Stderr, "HARNESS BUG: harness: Committee call blocked on op", strings.Join(t, " "))
+		os.Exit(3)
+	}
+	return ""
+}
+
+func exec1(t []string) string {
 	if os.Getenv("HX_STACK") != "" {
 		defer func() {
 			if r := recover(); r != nil {
@@ -793,18 +921,18 @@ var lastCrossed, lastReUnreg bool
 
 // UnregisterCR in the block in which the pending candidate is activated leaves it Active with CancelHeight set and
 // its nickname released; the rollback of a later UnregisterCR / UpdateCR on it writes constants
-var reUnregLeaf = map[string]bool{"S.Candidates[].CancelHeight": true, "S.Candidates[].State": true, "S.Nicknames[]": true}
+var reUnregLeaf = map[string]bool{"S.Candidates[].CancelHeight": true, "S.Candidates[].State": true, "S.Nicknames[+]": true, "S.Nicknames[-]": true}
 
 // fields of the objects (candidates, council members) that the rollback of a committee change /
 // voting-period start replaces by copies
 func staleLeaf(leaf string) bool {
 	return strings.HasPrefix(leaf, "S.Candidates[].") || strings.HasPrefix(leaf, "K.Members[].") ||
 		strings.HasPrefix(leaf, "S.HistoryCandidates[][].") ||
-		leaf == "S.Nicknames[]" // unregisterCR / updateCandidateInfo add and delete nicknames read from the orphaned objects
+		leaf == "S.Nicknames[+]" || leaf == "S.Nicknames[-]" // unregisterCR / updateCandidateInfo add and delete nicknames read from the orphaned objects
 }
 
 func recorded(leaf string) bool {
-	if leaf == "S.DepositOutputs[]" {
+	if leaf == "S.DepositOutputs[+]" || leaf == "S.UsedCRVotes[+0]" || leaf == "S.UsedCRCProposalVotes[+0]" || leaf == "S.UsedCRImpeachmentVotes[+0]" {
 		return true
 	}
 	// undo closures of earlier heights act on Candidate objects that the rollback of a committee
@@ -897,6 +1025,34 @@ func gen(g *hx.Gen) {
 			if r.Chance(6) {
 				txs = append(txs, fmt.Sprintf("retdep:%d", r.Intn(nCand)))
 			}
+			if r.Chance(14) { // Voting transactions from stake addresses (few addresses, so lists get replaced)
+				switch r.Intn(3) {
+				case 0:
+					var cs []string
+					for j := 0; j < nCand; j++ {
+						if r.Chance(50) {
+							cs = append(cs, fmt.Sprintf("%d=%d", j, 1+r.Intn(40)))
+						}
+					}
+					if len(cs) > 0 {
+						txs = append(txs, fmt.Sprintf("dvote:%d:crc:%s", r.Intn(2), strings.Join(cs, ",")))
+					}
+				case 1:
+					if props > 0 {
+						var cs []string
+						for j := max(0, props-4); j < props; j++ {
+							if r.Chance(70) {
+								cs = append(cs, fmt.Sprintf("%d=%d", j, 1+r.Intn(1000)))
+							}
+						}
+						if len(cs) > 0 {
+							txs = append(txs, fmt.Sprintf("dvote:%d:prop:%s", r.Intn(2), strings.Join(cs, ",")))
+						}
+					}
+				default:
+					txs = append(txs, fmt.Sprintf("dvote:%d:imp:%d=%d", r.Intn(2), r.Intn(nCand), 1+r.Intn(500)))
+				}
+			}
 			for k := 0; k < ntx; k++ {
 				i := r.Intn(nCand)
 				switch c := r.Intn(20); {
@@ -984,6 +1140,13 @@ func gen(g *hx.Gen) {
 			g.Emit("rb 1") // exactly CRVotingStartHeight: still a rollback, not a reset
 		}
 	}
+}
+
+func max(a, b int) int {
+	if a > b {
+		return a
+	}
+	return b
 }
 
 func min(a, b int) int {
